@@ -74,6 +74,15 @@ CHECKS = {
           "MAC unforgeability and is stated as a _partial theorem (hypothesis: MAC differs); it is exercised on the real code by flipping every bit of tag/ciphertext/ad/nonce/key, every truncation and 17 extensions of "
           "valid tuples for all six AEADs and both secretbox variants, comparing return code, length and the whole sentinel-prefilled output buffer with the model."),
     note=NOTE_COMMON + "cryptographic (probabilistic) part is not provable: partial by nature; secretstream under C09, auth/onetimeauth verify under C04, sign_open under C06."),
+ "C18": dict(
+    category="proof", design_ref="DESIGN.md §3.18",
+    technique="Lean 4 theorems (rejection-sampling semantics over arbitrary draw scripts, exact uniformity by a counting lemma over residues, DRG = ChaCha20-IETF keystream via the C03 development, scalar rejection loop, generators cover their secrets) + scripted-random-source differential correspondence",
+    text=("randombytes_uniform, randombytes_buf_deterministic, the scalar rejection loop and key generation are modelled over an arbitrary script of draws; Lean proves: the threshold is 2^32 mod n, the "
+          "result is the first accepted draw mod n and below n (0 for n < 2), exactly the draws up to it are consumed, every residue is hit by exactly (2^32 - 2^32 mod n)/n accepted values (exact uniformity), "
+          "the deterministic generator equals the ChaCha20-IETF keystream under the 'LibsodiumDRG' nonce for every size up to 2^38 and misuses beyond, random scalars are the first canonical non-zero masked "
+          "block, and key generators return exactly the requested bytes. The tie installs a scripted source through randombytes_set_implementation, logs every request size, and runs all 27 *_keygen, the "
+          "keypair generators, secretstream init_push, box_seal and the core random point/scalar functions on scripts with every consumed byte perturbed."),
+    note=NOTE_COMMON + "outputs of key-pair / point generators are compared against the executable X25519 / Ed25519 / Elligator / Ristretto specifications (translation validation)."),
 }
 
 NOT_YET = {}
